@@ -136,6 +136,8 @@ class ExprMixin:
         g = self.lookup_global(name, p.frame.mod, p)
         if g is not None:
             return g
+        if self.lenient:
+            return VOpaque("global:" + name)
         raise Unsupported(f"unbound name {name} at {self.where(node) if node else '?'} in {p.frame.mod}")
 
     def ev_JoinedStr(self, node, p):
@@ -178,6 +180,8 @@ class ExprMixin:
                 if ety_hint is not None:
                     return [(q, self.new_box(q, "list", [ety_hint], VSeq.empty(ety_hint)))]
                 return [(q, self.new_object(q, "list[?]", "list"))]
+            if any(isinstance(v, VOpaque) for v in vs):
+                return [(q, VOpaque("list of unmodelled values"))]
             ety = ety_hint or self.join_types([v for v in vs])
             return [(q, self.new_box(q, "list", [ety], VSeq.of([self.adapt(q, v, ety) for v in vs], ety)))]
         if ety_hint is not None and node.elts:
@@ -225,6 +229,8 @@ class ExprMixin:
 
     def ev_Set(self, node, p):
         def fin(q, vs):
+            if any(isinstance(v, (VOpaque, VModule, VFunc, VClass)) for v in vs):
+                return [(q, VOpaque("set of unmodelled values"))]
             ety = self.join_types(vs)
             s = VSet.empty(ety)
             for v in vs:
@@ -246,7 +252,8 @@ class ExprMixin:
                 if cont is not None:
                     out.extend(go(cont, idx + 1))
                 if stop is not None:
-                    out.append((stop, v))
+                    # `x or y` stops on a truthy x: an optional that is truthy is not None
+                    out.append((stop, v.val if (not is_and and isinstance(v, VOpt)) else v))
                 return out
             return self.bind(self.ev(node.values[idx], q), k)
 
@@ -316,6 +323,8 @@ class ExprMixin:
 
     def binop(self, op, a: V, b: V, p: Path, node=None):
         w = self.where(node) if node is not None else ""
+        if isinstance(a, VOpaque) or isinstance(b, VOpaque):
+            return [(p, VOpaque("arith on unmodelled value"))]
         if isinstance(a, VBool):
             a = coerce(a, INT)
         if isinstance(b, VBool):
@@ -487,6 +496,8 @@ class ExprMixin:
         if isinstance(op, (ast.In, ast.NotIn)):
             r = self.contains(b, a, p)
             return r if isinstance(op, ast.In) else z3.Not(r)
+        if isinstance(a, VOpaque) or isinstance(b, VOpaque):
+            return z3.Bool(fresh_name("opaque_cmp"))
         if isinstance(a, VBool):
             a = coerce(a, INT)
         if isinstance(b, VBool):
@@ -502,6 +513,8 @@ class ExprMixin:
         raise Unsupported(f"compare {type(op).__name__} on {a!r}, {b!r}")
 
     def py_eq(self, a: V, b: V, p: Path, is_=False):
+        if (isinstance(a, VOpaque) or isinstance(b, VOpaque)) and not (isinstance(a, VNone) or isinstance(b, VNone)):
+            return z3.Bool(fresh_name("opaque_eq"))
         if isinstance(a, VClass) and isinstance(b, VClass):
             return z3.BoolVal(a.name == b.name)
         if isinstance(a, (VClass, VFunc, VModule)) or isinstance(b, (VClass, VFunc, VModule)):
@@ -519,6 +532,8 @@ class ExprMixin:
         return val_eq(a, b)
 
     def contains(self, container: V, item: V, p: Path):
+        if isinstance(container, VOpaque) or isinstance(item, VOpaque) and not isinstance(container, (VSeq, VTup)):
+            return z3.Bool(fresh_name("opaque_in"))
         if isinstance(container, VSeq):
             return self.seq_contains(container, item)
         if isinstance(container, VTup):
@@ -649,6 +664,10 @@ class ExprMixin:
         r = self.attr_extra(p, v, name, node)
         if r is not None:
             return r
+        if (d.mod is not None and not name.startswith("__")) or self.lenient:
+            # a slot the schema does not know (e.g. added by an edit of the code): reads yield an arbitrary value
+            self.assumptions_used.add("fields not declared in the schema read as arbitrary values (over-approximation)")
+            return [(p, VOpaque(f"field:{v.cls}.{name}"))]
         raise Unsupported(f"{v.cls}.{name}: neither a declared field nor a method at {self.where(node)}")
 
     def attr_extra(self, p, v, name, node):
@@ -669,6 +688,9 @@ class ExprMixin:
         return self.bind(self.ev_list([node.value, node.slice], p), lambda q, vs: self.get_item(q, vs[0], vs[1], node))
 
     def get_slice(self, p, base, lo, hi, st, node):
+        if self.lenient and (isinstance(base, VOpaque) or (isinstance(base, VRef) and (base.cls is None or (
+                base.cls in self.classes and not self.classes[base.cls].box and self.classes[base.cls].mod is None)))):
+            return [(p, VOpaque("slice of unmodelled value"))]
         if st is not None:
             return self.slice_extra(p, base, lo, hi, st, node)
         if isinstance(base, VRef) and base.cls in self.classes and not self.classes[base.cls].box:
@@ -740,6 +762,9 @@ class ExprMixin:
         r = self.getitem_extra(p, base, idx, node)
         if r is not None:
             return r
+        if isinstance(base, VOpaque) and self.lenient:
+            q = p.copy()
+            return [(p, VOpaque("item of unmodelled container")), (q, Exc("KeyError", w))]
         raise Unsupported(f"subscript on {base!r}[{idx!r}] at {w}")
 
     def getitem_extra(self, p, base, idx, node):
